@@ -129,6 +129,34 @@ def run(tier, seed):
         if extra or missing:
             rep.violation('diagnostics under failing cache reads differ from the healthy ones for dependencies whose reads succeed' if missing else
                           'a diagnostic was published that the healthy cache does not give', {'input': i, 'impl': o, 'unexpected': extra, 'missing': missing})
+    # ---- (e) the production entry point (run_server, what main() runs) in a child process over stdio ----
+    import os, shutil, tempfile
+    base = tempfile.mkdtemp(prefix='c18srv', dir='/var/tmp')
+    sstats = {'environments': 0, 'unusable': 0}
+    try:
+        open(os.path.join(base, 'afile'), 'w').write('x')
+        os.makedirs(os.path.join(base, 'ro'), exist_ok=True)
+        os.makedirs(os.path.join(base, 'good'), exist_ok=True)
+        os.makedirs(os.path.join(base, 'dbdir', 'version-lsp', 'versions.db'), exist_ok=True)      # a directory in place of the database
+        os.makedirs(os.path.join(base, 'logdir', 'version-lsp', 'version-lsp.log'), exist_ok=True)  # a directory in place of the log file
+        senvs = [({'xdg': os.path.join(base, 'good'), 'home': None}, False), ({'xdg': os.path.join(base, 'afile'), 'home': None}, True),
+                 ({'xdg': os.path.join(base, 'afile', 'sub'), 'home': None}, True), ({'xdg': '/proc/nonexistent/x', 'home': None}, True),
+                 ({'xdg': None, 'home': os.path.join(base, 'afile')}, True), ({'xdg': os.path.join(base, 'dbdir'), 'home': None}, True),
+                 ({'xdg': os.path.join(base, 'logdir'), 'home': None}, False), ({'xdg': '', 'home': os.path.join(base, 'good')}, False)]
+        souts, err = C.run_harness('server', 0, 0, stdin='\n'.join(json.dumps(e) for e, _ in senvs) + '\n', timeout=600)
+        if err:
+            rep.broke('harness server', err)
+        for (env, unusable), o in zip(senvs, souts or []):
+            r = o['out']
+            sstats['environments'] += 1
+            sstats['unusable'] += 1 if unusable else 0
+            if not (r['initialized'] and r['answered_action'] and r['alive_after_requests']):
+                rep.violation(f'the server does not start or stops answering with XDG_DATA_HOME={env["xdg"]!r} HOME={env["home"]!r}: {r["stderr"][:200]!r}', {'environment': env, 'observed': r})
+            elif unusable and not r['warned']:
+                rep.violation('no cache can be opened but the user is not told that version checking is unavailable', {'environment': env, 'observed': r})
+    finally:
+        shutil.rmtree(base, ignore_errors=True)
+    rep.cov['streams']['server_process'] = sstats
     rep.cov.update({'evaluations': len(outs or []) + dstats['patterns'] + fstats['cases'] + len(script['steps']), 'distinct_nontrivial': dstats['opened'] + fstats['with_faults'],
                     'rule': 'data-directory variables: 10 XDG values x 4 HOME values in child processes; production constructor with an unusable data directory driven through the '
                             'in-process LspService; damage: truncation at every page boundary, zeroing and garbage-filling every page, random overwrites, non-database file, directory in '
